@@ -1087,15 +1087,23 @@ def gen_serial(seed, tier, focus="C13"):
     ch = Chooser(seed)
     cfg = gen_common(ch, tier)
     cfg["fmt"] = ch.pick("config", "fmt", ["SDMF", "MDMF"])
+    cfg["dir"] = ch.chance("config", "dir", 0.45)
     W = "workload"
     sz = sizes_for(cfg)
     ops = [["create", ch.pick(W, "csize", sz[1:]), ch.randint(W, "cpat", 1, 1 << 30)]]
     for i in range(ch.randint(W, "nops", 2, 4)):
-        ops.append(["op", ch.pick(W, ("kind", i), ["download", "overwrite", "modify", "servermap", "modify", "upload"]),
-                    ch.pick(W, ("size", i), sz[1:8]), ch.randint(W, ("pat", i), 1, 1 << 30),
-                    ch.chance(W, ("samecapstr", i), 0.5), ch.chance(W, ("fail", i), 0.2)])
+        # how the node is obtained: 0 same cap string object, 1 an equal copy of the string, 2 write-cap + read-cap
+        # (the shape a parent directory's child lookup uses), 3 through the parent directory (directory runs only)
+        shape = ch.pick(W, ("shape", i), [0, 1, 2, 2, 3])
+        if cfg["dir"]:
+            ops.append(["dop", ch.pick(W, ("dkind", i), ["set", "set", "set", "delete", "delete_missing", "set_children", "list"]),
+                        ch.randrange(W, ("name", i), 3), ch.randint(W, ("pat", i), 1, 1 << 30), shape])
+        else:
+            ops.append(["op", ch.pick(W, ("kind", i), ["download", "overwrite", "modify", "servermap", "modify", "upload"]),
+                        ch.pick(W, ("size", i), sz[1:8]), ch.randint(W, ("pat", i), 1, 1 << 30),
+                        shape, ch.chance(W, ("fail", i), 0.25)])
     faults = []
-    for j in range(ch.weighted("faults", "nf", [(0, 3), (1, 2), (2, 1)])):
+    for j in range(ch.weighted("faults", "nf", [(0, 4), (1, 2), (2, 1)])):
         faults.append([ch.pick("faults", ("kind", j), ["error", "stall", "disconnect_before"]), ch.randrange("faults", ("srv", j), cfg["nservers"]),
                        ch.pick("faults", ("meth", j), ["slot_testv_and_readv_and_writev", "slot_readv"]), ch.randint("faults", ("nth", j), 2, 8), 5.0])
     return {"engine": "mutsim", "profile": "serial", "focus": "C13", "seed": seed, "cfg": cfg, "ops": ops, "faults": faults}
@@ -1104,6 +1112,7 @@ def gen_serial(seed, tier, focus="C13"):
 def exec_serial(case):
     from sim.runner import child_tmp
     from allmydata.mutable import filenode as fn_mod
+    from allmydata.interfaces import NoSuchChildError
     cfg = case["cfg"]
     base = tempfile.mkdtemp(dir=child_tmp())
     viol, probes = [], {}
@@ -1115,20 +1124,22 @@ def exec_serial(case):
         viol.append({"clause": "C13.%s" % clause, "sig": sig or "C13.%s" % clause, "detail": detail})
 
     g = build_grid(case, base)
-    intervals = []      # [node id, name, start event, end event or None, request index]
+    intervals = []      # [storage index, name, start event, end event or None, request index, node object id]
     originals = {}
     # the seam: every whole-file operation goes through MutableFileNode._do_serialized(cb, ...); record when the
     # real code actually invokes cb and when cb's Deferred fires (nested helper calls inside cb are not operations)
     orig_ds = fn_mod.MutableFileNode._do_serialized
     originals["_do_serialized"] = orig_ds
     reqno = [0]
+    requests = []       # [request index, storage index, cb name]
 
     def ds_wrapper(self, cb, *a, **kw):
         reqno[0] += 1
         req = reqno[0]
+        requests.append([req, self.get_storage_index(), getattr(cb, "__name__", "?")])
 
         def cb2(*a2, **kw2):
-            rec = [id(self), getattr(cb, "__name__", "?"), R.events, None, req]
+            rec = [self.get_storage_index(), getattr(cb, "__name__", "?"), R.events, None, req, id(self)]
             intervals.append(rec)
             d = defer.maybeDeferred(cb, *a2, **kw2)
 
@@ -1145,82 +1156,193 @@ def exec_serial(case):
         ver = MDMF_VERSION if cfg["fmt"] == "MDMF" else SDMF_VERSION
         creates = [op for op in case["ops"] if op[0] == "create"]
         op0 = creates[0] if creates else ["create", 10, 1]
-        data0 = b"base:" + pat_bytes(op0[2], op0[1])
-        st, node = run(c.create_mutable_file(MutableData(data0), version=ver))
-        if st != "ok":
-            return finish(g, viol, probes, case, ("C13",))
+        isdir = bool(cfg.get("dir")) and any(o[0] == "dop" for o in case["ops"])
+        parent = None
+        if isdir:
+            st, parent = run(c.create_dirnode(version=ver))
+            if st != "ok":
+                return finish(g, viol, probes, case, ("C13",))
+            st, node = run(c.create_dirnode(version=ver))
+            if st != "ok":
+                return finish(g, viol, probes, case, ("C13",))
+            st, _ = run(parent.set_node(u"sub", node))
+            if st != "ok":
+                return finish(g, viol, probes, case, ("C13",))
+        else:
+            data0 = b"base:" + pat_bytes(op0[2], op0[1])
+            st, node = run(c.create_mutable_file(MutableData(data0), version=ver))
+            if st != "ok":
+                return finish(g, viol, probes, case, ("C13",))
         settle(200_000)
-        del intervals[:]
         cap = node.get_uri()
+        rocap = node.get_readonly_uri()
         # the property speaks of nodes obtained through the same capability string: use such a node from here on
         # (the object returned by create_mutable_file is not entered into the node cache)
         node = c.create_node_from_uri(cap)
+        via_parent = None
+        if isdir:
+            st, via_parent = run(c.create_node_from_uri(parent.get_uri()).get(u"sub"))
+            if st != "ok":
+                return finish(g, viol, probes, case, ("C13",))
+            settle(200_000)
+        del intervals[:]
+        del requests[:]
+        target_si = node.get_storage_index()
         for fl in case.get("faults", []):
             kind, srv, meth, nth, secs = fl
             if srv < len(g.servers):
                 g.net.add_fault({"kind": kind, "callee": g.servers[srv].name, "caller": c.sim_name, "method": meth, "nth": nth, "secs": secs})
+        faultfree = not case.get("faults")
         results = []
-        requested = []
         tokens = []
-        for i, op in enumerate([o for o in case["ops"] if o[0] == "op"]):
-            _, kind, size, pat, samecap, fail = op
-            nd = c.create_node_from_uri(cap if samecap else bytes(bytearray(cap)))     # equal string, maybe a distinct object
-            if nd is not node:
-                bad("different-node-object", "create_node_from_uri returned a different node object for the same capability string")
-            data = pat_bytes(pat, size)
-            if kind == "download":
-                d = nd.download_best_version()
-            elif kind == "overwrite":
-                d = nd.overwrite(MutableData(data))
-            elif kind == "upload":
-                # needs a servermap: request one through the node first (also serialized)
-                d = nd.get_servermap(MODE_WRITE)
-                d.addCallback(lambda sm, nd=nd, data=data: nd.upload(MutableData(data), sm))
-            elif kind == "servermap":
-                d = nd.get_servermap(MODE_READ)
-            else:
-                token = b"|T%d" % i
-                tokens.append((i, token))
 
-                def modifier(old, servermap, first_time, token=token, fail=fail):
-                    if fail:
-                        raise ValueError("modifier fails on purpose")
-                    return old if token in old else old + token
-                d = nd.modify(modifier)
-            requested.append((i, kind))
+        def obtain(shape):
+            if shape is True:
+                shape = 0
+            elif shape is False:
+                shape = 1
+            if shape == 0:
+                nd = c.create_node_from_uri(cap)
+            elif shape == 1:
+                nd = c.create_node_from_uri(bytes(bytearray(cap)))     # equal string, a distinct object
+            elif shape == 2 or via_parent is None:
+                nd = c.create_node_from_uri(cap, rocap)
+            else:
+                nd = via_parent
+            probe("node-shape-%s" % shape)
+            if nd is not node:
+                bad("different-node-object", "one client returned two different node objects for the same capability string "
+                    "(shape %r: 0/1 = cap alone, 2 = write-cap + read-cap, 3 = looked up in the parent directory)" % (shape,))
+            return nd
+
+        def lit(pat):
+            return b"URI:LIT:" + base32.b2a(b"%d" % pat)
+
+        for i, op in enumerate([o for o in case["ops"] if o[0] in ("op", "dop")]):
+            fail = False
+            if op[0] == "op":
+                _, kind, size, pat, shape, fail = op
+                fail = bool(fail) and kind == "modify"       # only a modifier can be made to fail on purpose
+                nd = obtain(shape)
+                data = pat_bytes(pat, size)
+                if kind == "download":
+                    d = nd.download_best_version()
+                elif kind == "overwrite":
+                    d = nd.overwrite(MutableData(data))
+                elif kind == "upload":
+                    # needs a servermap: request one through the node first (also serialized)
+                    d = nd.get_servermap(MODE_WRITE)
+                    d.addCallback(lambda sm, nd=nd, data=data: nd.upload(MutableData(data), sm))
+                elif kind == "servermap":
+                    d = nd.get_servermap(MODE_READ)
+                else:
+                    token = b"|T%d" % i
+                    tokens.append((i, token))
+
+                    def modifier(old, servermap, first_time, token=token, fail=fail):
+                        if fail:
+                            raise ValueError("modifier fails on purpose")
+                        return old if token in old else old + token
+                    d = nd.modify(modifier)
+                name = None
+            else:
+                _, kind, name_i, pat, shape = op
+                nd = obtain(shape)
+                name = u"n%d" % name_i
+                if kind == "set":
+                    d = nd.set_uri(name, lit(pat), lit(pat))
+                elif kind == "delete":
+                    d = nd.delete(name, must_exist=False)
+                elif kind == "delete_missing":
+                    name = u"never-there"
+                    fail = True
+                    d = nd.delete(name, must_exist=True)
+                elif kind == "set_children":
+                    d = nd.set_children({name: (lit(pat), lit(pat)), u"extra": (lit(pat + 1), lit(pat + 1))})
+                else:
+                    d = nd.list()
             box = {}
             d.addCallbacks(lambda r, box=box: box.setdefault("r", ("ok", r)), lambda f, box=box: box.setdefault("r", ("err", f)))
-            results.append((i, kind, fail, box))
+            results.append((i, kind, fail, box, name))
         try:
             settle(400_000)
         except EventCap:
             bad("livelock", "operations never quiesce")
             return finish(g, viol, probes, case, ("C13",))
-        for (i, kind, fail, box) in results:
+        deliberate_failure_seen = False
+        for (i, kind, fail, box, name) in results:
             if "r" not in box:
                 bad("op-hung", "operation %d (%s) never completed; a failed earlier operation must not block later ones (faults=%r)" % (i, kind, case.get("faults")),
                     sig="C13.op-hung")
-            else:
-                probe("op-" + box["r"][0])
-        # intervals of one node never overlap, and they start in request order
-        mine = [r for r in intervals if r[0] == id(node)]
+                continue
+            probe("op-" + box["r"][0])
+            if fail:
+                deliberate_failure_seen = True
+                if box["r"][0] == "ok":
+                    probe("deliberate-failure-did-not-fail")
+                continue
+            if box["r"][0] == "err":
+                f = box["r"][1]
+                stale = f.check(ValueError) and "on purpose" in str(f.value) or (f.check(NoSuchChildError) and "never-there" in str(f.value))
+                if stale:
+                    bad("blocked-by-earlier-failure", "operation %d (%s) was handed the failure of an earlier, unrelated operation (%s): "
+                        "a failed operation must not block later ones" % (i, kind, str(f.value)[:200]))
+                elif faultfree and kind != "upload":
+                    # (upload() carries a servermap taken earlier; it may legitimately be stale by the time it runs)
+                    bad("faultfree-op-failed", "no fault was injected, yet operation %d (%s)%s failed: %s" % (
+                        i, kind, " after a deliberately failing operation" if deliberate_failure_seen else "", str(f.value)[:300]),
+                        sig="C13.faultfree-op-failed.%s" % f.type.__name__)
+        # every requested operation on the node was really started (not skipped), exactly once
+        started = {}
+        for r in intervals:
+            started[r[4]] = started.get(r[4], 0) + 1
+        for (req, si, nm) in requests:
+            if si == target_si and started.get(req, 0) != 1:
+                bad("op-not-run", "operation %s requested as #%d on the node was started %d times" % (nm, req, started.get(req, 0)))
+                break
+        # intervals of one logical node (one storage index) never overlap, and they start in request order
+        mine = [r for r in intervals if r[0] == target_si]
         for a, b in zip(mine, mine[1:]):
             if a[3] is None or b[2] < a[3]:
-                bad("overlap", "serialized operations overlap: %s [%s..%s] and %s [%s..%s]" % (a[1], a[2], a[3], b[1], b[2], b[3]))
+                bad("overlap", "serialized operations on one mutable object overlap: %s [%s..%s] and %s [%s..%s]%s" % (
+                    a[1], a[2], a[3], b[1], b[2], b[3], " (two node objects)" if a[5] != b[5] else ""))
                 break
             if b[4] < a[4]:
                 bad("order", "operation requested as #%d started before the one requested as #%d" % (b[4], a[4]))
                 break
         probe("serialized-intervals", len(mine))
-        # no lost update among successful modifies that followed no overwrite/upload
-        st, final = run(c.create_node_from_uri(cap).download_best_version(), 300_000)
-        if st == "ok":
-            # (a failed overwrite may still have replaced the contents, so every *requested* replacement counts)
-            last_replace = max([i for (i, kind, fail, box) in results if kind in ("overwrite", "upload")] + [-1])
-            for (i, token) in tokens:
-                box = [b for (j, kd, fl, b) in results if j == i][0]
-                if box.get("r", ("?",))[0] == "ok" and i > last_replace and token not in final:
-                    bad("lost-update", "modify #%d reported success and no later overwrite was requested, yet its change is missing from the final contents" % i)
+        if isdir:
+            # reference model: apply the operations in request order; a failed edit may or may not have been applied
+            st, listing = run(g.add_client(k=k, happy=1, n=n, fmt=cfg["fmt"]).create_node_from_uri(cap).list(), 400_000)
+            if st == "ok":
+                present = set(nm for nm in listing)
+                poss = {}
+                for (i, kind, fail, box, name) in results:
+                    ok = box.get("r", ("?",))[0] == "ok"
+                    names = {"set": [name], "set_children": [name, u"extra"], "delete": [name]}.get(kind, [])
+                    for nm in names:
+                        new = (kind != "delete")
+                        if ok:
+                            poss[nm] = {new}
+                        else:
+                            poss[nm] = poss.get(nm, {False}) | {new}
+                for nm, states in sorted(poss.items()):
+                    if (nm in present) not in states:
+                        bad("lost-update", "directory edits through one client lost a change: child %r is %s in the final listing, "
+                            "but applying the operations in request order leaves it %s" % (
+                                nm, "present" if nm in present else "absent", "present" if True in states else "absent"))
+                        break
+                probe("dir-listing-compared")
+        else:
+            # no lost update among successful modifies that followed no overwrite/upload
+            st, final = run(c.create_node_from_uri(cap).download_best_version(), 300_000)
+            if st == "ok":
+                # (a failed overwrite may still have replaced the contents, so every *requested* replacement counts)
+                last_replace = max([i for (i, kind, fail, box, name) in results if kind in ("overwrite", "upload")] + [-1])
+                for (i, token) in tokens:
+                    box = [b for (j, kd, fl, b, nm) in results if j == i][0]
+                    if box.get("r", ("?",))[0] == "ok" and i > last_replace and token not in final:
+                        bad("lost-update", "modify #%d reported success and no later overwrite was requested, yet its change is missing from the final contents" % i)
         return finish(g, viol, probes, case, ("C13",))
     finally:
         for nm, orig in originals.items():
